@@ -37,6 +37,42 @@ type Case struct {
 	FinalNewline bool
 	BlankEnd     int
 	Bufs         []int
+	Chunk        int  // >0: NewIndex reads the file through a reader that returns at most Chunk bytes per call
+	EagerEOF     bool // File reads through an io.ReaderAt that reports io.EOF together with a read that ends exactly at the end of the file (the io.ReaderAt contract allows it)
+}
+
+type chunkReader struct {
+	b []byte
+	n int
+}
+
+func (c *chunkReader) Read(p []byte) (int, error) {
+	if len(c.b) == 0 {
+		return 0, io.EOF
+	}
+	n := len(p)
+	if n > c.n {
+		n = c.n
+	}
+	if n > len(c.b) {
+		n = len(c.b)
+	}
+	copy(p, c.b[:n])
+	c.b = c.b[n:]
+	return n, nil
+}
+
+type eagerEOF struct{ b []byte }
+
+func (e eagerEOF) ReadAt(p []byte, off int64) (int, error) {
+	if off >= int64(len(e.b)) {
+		return 0, io.EOF
+	}
+	n := copy(p, e.b[off:])
+	if int(off)+n == len(e.b) {
+		return n, io.EOF
+	}
+	return n, nil
 }
 
 func recGen() *rapid.Generator[FRec] {
@@ -88,6 +124,10 @@ func draw(t *rapid.T) Case {
 		c.BlankEnd = rapid.IntRange(1, 2).Draw(t, "blankEnd")
 	}
 	c.Bufs = rapid.SliceOfN(rapid.SampledFrom([]int{1, 2, 3, 5, 7, 16, 10000}), 1, 3).Draw(t, "bufs")
+	if rapid.IntRange(0, 2).Draw(t, "chunked") == 0 {
+		c.Chunk = rapid.SampledFrom([]int{1, 2, 3, 7, 64, 4095, 4096, 4097}).Draw(t, "chunk")
+	}
+	c.EagerEOF = rapid.IntRange(0, 2).Draw(t, "eagerEOF") == 0
 	return c
 }
 
@@ -141,7 +181,11 @@ func build(c Case) ([]byte, []truth) {
 
 func run(c Case, rec *h.Rec) {
 	data, tr := build(c)
-	idx, err := fai.NewIndex(bytes.NewReader(data))
+	var src io.Reader = bytes.NewReader(data)
+	if c.Chunk > 0 {
+		src = &chunkReader{b: data, n: c.Chunk}
+	}
+	idx, err := fai.NewIndex(src)
 	if err != nil {
 		rec.Failf("NewIndex failed on a well-formed FASTA: %v\n%q", err, data)
 		return
@@ -201,7 +245,11 @@ func run(c Case, rec *h.Rec) {
 		}
 	}
 
-	f := fai.NewFile(bytes.NewReader(data), idx2)
+	var ra io.ReaderAt = bytes.NewReader(data)
+	if c.EagerEOF {
+		ra = eagerEOF{data}
+	}
+	f := fai.NewFile(ra, idx2)
 	lineEndRange, blankBefore := false, false
 	for i, r := range c.Recs {
 		r.Seq = r.full()
@@ -263,6 +311,8 @@ func run(c Case, rec *h.Rec) {
 			return
 		}
 	}
+	rec.ClassIf(c.Chunk > 0, "index_built_from_a_chunked_reader")
+	rec.ClassIf(c.EagerEOF, "readerat_reports_eof_with_the_last_bytes")
 	rec.ClassIf(len(data) > 4096, "file_larger_than_4KiB")
 	rec.ClassIf(len(data) > 65536, "file_larger_than_64KiB")
 	rec.ClassIf(c.CRLF, "crlf")
